@@ -61,7 +61,10 @@ def valid_dict(rng, cls):
         r = S.rand_leaf(rng) if cls != "NIRGraph" else S.serial_graph(rng, depth=0, max_nodes=2)
         if r["k"] == cls:
             with quiet():
-                return V.build(r).to_dict()
+                d = V.build(r).to_dict()
+            if any(v is None for v in d.values()):
+                continue          # (an undefined port shape has no file form; these cases need a dictionary that does)
+            return d
     raise RuntimeError(cls)
 
 
